@@ -202,15 +202,22 @@ def all_actions(n):
 def star_trace(tid, rows, vias, kinds=None):
     n = len(rows) // 2
     destab, stab = rows[:n], rows[n:]
+    sfc, tr, CliffordTableau, Stabilizer, MixedStabilizer = _mods()
     base = pj.rows_to_tableau(destab, stab)
+    init = pj.tab_obs(base)
     events = []
     acts = [a for a in all_actions(n) if kinds is None or a["ev"] in kinds]
     for k, a in enumerate(acts):
-        tab = base.copy()
+        shared = (k % 9 == 1)
+        # every ninth action works on a tableau built with the ARRAY constructor from the source's own arrays (a clone as a
+        # user would make it); the source must still be what it was afterwards
+        tab = CliffordTableau(base.table, base.phase) if shared else base.copy()
         _, e = do_event(tab, a, vias[k % len(vias)])
         e.pop("add", None) if False else None
         events.append(e)
-    return {"tid": tid, "star": True, "meta": {"kind": "star", "n": n}, "init": pj.tab_obs(base), "events": events}
+        if shared:
+            events.append({"ev": "same", "after": a["ev"] + ":" + str(a.get("g", "")), "post": pj.tab_obs(base)})
+    return {"tid": tid, "star": True, "meta": {"kind": "star", "n": n}, "init": init, "events": events}
 
 
 def sampled_tableau_rows(rng, n, depth):
